@@ -71,6 +71,8 @@ def oracle_violations(cases, res):
         mean_good = sum(float.fromhex(inp["rms"][i][j]) for i, j in gp) / len(gp) if gp else 0.0
         for (i, j) in gp:
             d, s, m = (float.fromhex(inp[k][i][j]) for k in ("data", "rms", "mod"))
+            if c["loss"] == "cash_loss" and m <= 0:
+                continue        # the Cash statistic is documented for a positive model only (ln m)
             want = documented_logp(c["loss"], d, s, m, lat, mean_good)
             got = float.fromhex(r["logp"][i][j])
             if want is not None and abs(got - want) > 1e-4 + 1e-5 * abs(want) + 2e-6 * (abs(want) + 20):
